@@ -26,7 +26,7 @@ ASSUMPTIONS = ['input FASTQ is well formed (4 lines per record, equal seq/qual l
                'per-cell output is only combined with barcode strategies (the bulk strategy writes plain strings without a cell)']
 MIN_NONTRIVIAL = {'quick': 100, 'thorough': 2000}
 REQUIRED_MONITORS = ['hook:FastqIterator.__next__', 'hook:target.write', 'hook:reject.write', 'files:strict_parsed',
-                     'oracle:accepted_ids', 'oracle:rejected_ids', 'config:per_cell', 'config:no_reject_handle', 'config:max_read_pairs', 'config:cli', 'config:cli_multi', 'config:cli_auto', 'input:filelist', 'input:duplicate', 'input:chunked_lanes']
+                     'oracle:accepted_ids', 'oracle:rejected_ids', 'config:per_cell', 'config:no_reject_handle', 'config:max_read_pairs', 'config:cli', 'config:cli_multi', 'config:cli_auto', 'config:cli_per_lane_jobs', 'input:filelist', 'input:duplicate', 'input:chunked_lanes']
 SHARD_TIMEOUT = {'quick': 900, 'thorough': 5400}
 
 HDR_KINDS = ['illumina'] * 8 + ['illumina_unknown_index', 'illumina_numeric_index', 'short7', 'scmo', '3dec']
@@ -116,10 +116,15 @@ def run_cli_case(case):
         nopt = r.choice([None, None, 1, N - 1, N, N + 3, r.randint(1, N)])
         norejects = r.random() < 0.3
         scsepf = r.random() < 0.3
+        force_per_lane = case['j'] % 4 == 1
+        if force_per_lane:
+            nopt, scsepf = None, False
         out = os.path.join(d, 'out')
         # how the strategies are selected: one named strategy, two named strategies (each read is offered to every selected
         # strategy), or none named (the autodetection probes the head of the library and selects the best scoring one)
         mode = r.choice(['use', 'use', 'use', 'multi', 'auto', 'auto'])
+        if force_per_lane:
+            mode = 'use'
         second = None
         if mode == 'multi':
             second = r.choice([n2 for n2 in LY.ALL_NAMES if n2 not in ('ILLU', 'CHROMC16U12', name) and
@@ -156,7 +161,35 @@ def run_cli_case(case):
         drv = os.path.join(d, 'drv.py')
         with open(drv, 'w') as f:
             f.write(CLI_DRIVER)
-        p = subprocess.run([PY, drv] + cmd, capture_output=True, text=True, timeout=600, cwd=d)
+        # the way a scheduler runs a library: one job per lane (demux.py -g <job number, from 0> <files of the lane>), each writing
+        # <job>_TEMP_ files, followed by the glue step that demux.py itself composes: cat <lib>/*_TEMP_x > <lib>/x && rm <lib>/*_TEMP_x
+        per_lane_jobs = force_per_lane
+        cfg['per_lane_jobs'] = per_lane_jobs
+        if per_lane_jobs:
+            acc.count('config:cli_per_lane_jobs')
+            by_lane = collections.OrderedDict()
+            for f_ in files_on_disk:
+                by_lane.setdefault(os.path.basename(f_).split('_R')[0], []).append(f_)
+            opts = [a for a in cmd if a not in files]
+            p = None
+            for gid, lane_files in enumerate(by_lane.values()):
+                p = subprocess.run([PY, drv] + lane_files + opts + ['-g', str(gid)], capture_output=True, text=True, timeout=600, cwd=d)
+                if p.returncode != 0:
+                    break
+            if p.returncode == 0:
+                libdir = os.path.join(out, lib)
+                for fn in ['demultiplexedR1.fastq.gz', 'demultiplexedR2.fastq.gz', 'demultiplexing.log'] + ([] if norejects else ['rejectsR1.fastq.gz', 'rejectsR2.fastq.gz']):
+                    parts = sorted(glob.glob(os.path.join(libdir, '*_TEMP_' + fn)))
+                    if not parts and fn.endswith('R2.fastq.gz') and single:
+                        continue
+                    with open(os.path.join(libdir, fn), 'wb') as dst:      # `>` truncates the target first
+                        for part in parts:
+                            with open(part, 'rb') as src:
+                                dst.write(src.read())
+                    for part in parts:
+                        os.remove(part)
+        else:
+            p = subprocess.run([PY, drv] + cmd, capture_output=True, text=True, timeout=600, cwd=d)
         acc.evals += 1
         wit = {'config': cfg, 'library_head': [(x['id'], x['kind'], x['hk'], x['reads']) for x in all_pairs[:3]]}
         if p.returncode != 0:
